@@ -333,7 +333,7 @@ func worker(sc *scratch, sp *spec, j *job, tag string, timeout time.Duration) ([
 		return nil, fmt.Errorf("worker %s exceeded its watchdog of %v\n%s", tag, timeout, tail(buf.String(), 4000))
 	}
 	if werr != nil {
-		return nil, fmt.Errorf("worker %s failed: %v\n%s", tag, werr, tail(buf.String(), 6000))
+		return nil, fmt.Errorf("worker %s failed: %v\n%s\n[...]\n%s", tag, werr, headOf(buf.String(), 2500), tail(buf.String(), 4000))
 	}
 	f, err := os.Open(j.Out)
 	if err != nil {
@@ -698,6 +698,20 @@ func runCheck(sp *spec, tier string) int {
 	fmt.Printf("%s %s: %d runs (%d distinct non-trivial), %d steps, %d inconclusive, %d violating runs in %d groups, %.0fs\n",
 		sp.ID, tier, t.sum.Runs, len(t.hashes), t.sum.Steps, t.sum.Inconclusive, t.sum.Violations, len(order), time.Since(start).Seconds())
 	return exit
+}
+
+// headOf returns the first n bytes of s (where a crashing worker names the reason).
+func headOf(s string, n int) string {
+	// skip the harmless chatter of the command under test
+	if i := strings.Index(s, "panic:"); i >= 0 {
+		s = s[i:]
+	} else if i := strings.Index(s, "fatal error:"); i >= 0 {
+		s = s[i:]
+	}
+	if len(s) > n {
+		s = s[:n]
+	}
+	return s
 }
 
 func indent(s string) string {
